@@ -18,12 +18,13 @@ pub mod serde_json {
     #[verifier::accept_recursive_types(V)]
     pub struct Map<K, V> { pub inner: BTreeMap<K, V> }
     impl<K, V> Map<K, V> {
+    }
+    impl<V> Map<String, V> {
         #[verifier::external_body]
-        pub fn iter(&self) -> (r: std::collections::btree_map::Iter<'_, K, V>)
-            ensures r == iter_of(&self.inner)
+        pub fn iter(&self) -> (r: std::collections::btree_map::Iter<'_, String, V>)
+            ensures crate::btree_iter_post(&self.inner, r)
         { unimplemented!() }
     }
-    pub uninterp spec fn iter_of<'a, K, V>(m: &'a BTreeMap<K, V>) -> std::collections::btree_map::Iter<'a, K, V>;
     pub enum Value {
         Null,
         Bool(bool),
